@@ -23,11 +23,21 @@ PROP = {
 }
 
 TARGETS = ["absent", "existing-tdf", "existing-non-tdf", "existing-empty", "directory", "existing-tdf-with-blocks", "symlink-to-file"]
+ABSENT_KINDS = ["absent", "absent-no-suffix", "absent-other-suffix", "absent-upper-suffix"]
 
 
 def make_target(d, kind, seed):
     p = os.path.join(d, "target.tdf")
-    if kind == "absent":
+    if kind in ABSENT_KINDS:
+        # bystanders with similar names: none of them is the target, none may be touched
+        ev = {"t": "events", "format": 1, "startTime": 0, "events": [{"label": "bystander", "type": 0, "values": [0x3F800000]}]}
+        img = reftdf.build_image(3, [{"type": 16, "format": 1, "payload": reftdf.encode(ev), "comment": "do not touch", "cdate": 1, "mdate": 2}])
+        names = {"absent": ["target.tdf.bak", "target"], "absent-no-suffix": ["walk.tdf", "walk.TDF", "walk.tdf.bak", "walk.bin"],
+                 "absent-other-suffix": ["walk.tdf", "walk.dat.tdf", "walk"], "absent-upper-suffix": ["walk.tdf", "walk"]}[kind]
+        for i, nm in enumerate(names):
+            with open(os.path.join(d, nm), "wb") as f:
+                f.write(img if i % 2 == 0 else container.opaque_payload(seed + i, 50 + i))
+        p = os.path.join(d, {"absent": "target.tdf", "absent-no-suffix": "walk", "absent-other-suffix": "walk.dat", "absent-upper-suffix": "walk.TDF"}[kind])
         return p, None
     if kind == "directory":
         os.mkdir(p)
@@ -51,6 +61,37 @@ def make_target(d, kind, seed):
     with open(p, "wb") as f:
         f.write(data)
     return p, data
+
+
+def snapshot(d):
+    """every regular file below d -> sha256 (symlinks followed); directories listed by name"""
+    import hashlib
+
+    out = {}
+    for root, dirs, files in os.walk(d):
+        for name in dirs:
+            out[os.path.relpath(os.path.join(root, name), d) + "/"] = "dir"
+        for name in files:
+            fp = os.path.join(root, name)
+            try:
+                with open(fp, "rb") as f:
+                    out[os.path.relpath(fp, d)] = hashlib.sha256(f.read()).hexdigest()
+            except OSError:
+                out[os.path.relpath(fp, d)] = "unreadable"
+    return out
+
+
+def frame_condition(ctx, what, d, before, allowed_new):
+    """nothing that existed before may change or vanish; only `allowed_new` may appear"""
+    after = snapshot(d)
+    for name, h in before.items():
+        if name not in after:
+            ctx.fail(f"{what}/bystander-removed", f"{what}: pre-existing {name!r} in the target directory disappeared")
+        elif after[name] != h:
+            ctx.fail(f"{what}/bystander-clobbered", f"{what}: pre-existing file {name!r} in the target directory was modified")
+    extra = sorted(set(after) - set(before) - set(allowed_new))
+    if extra:
+        ctx.fail(f"{what}/unexpected-file-created", f"{what}: created {extra} besides / instead of the requested target {sorted(allowed_new)}")
 
 
 def as_path(p, kind):
@@ -82,7 +123,7 @@ def check_fresh_container(ctx, what, data):
 
 
 def new_strategy(tier):
-    return st.fixed_dictionaries({"target": st.sampled_from(TARGETS), "path": st.sampled_from(PATH_KINDS), "seed": st.integers(0, 10 ** 6)})
+    return st.fixed_dictionaries({"target": st.sampled_from(TARGETS + ABSENT_KINDS[1:] + ["absent"]), "path": st.sampled_from(PATH_KINDS), "seed": st.integers(0, 10 ** 6)})
 
 
 def run_new(ctx, case):
@@ -92,12 +133,18 @@ def run_new(ctx, case):
     cwd0 = os.getcwd()
     try:
         p, before = make_target(d, case["target"], case["seed"])
+        snap = snapshot(d)
         try:
             t = Tdf.new(as_path(p, case["path"]))
             exc = None
         except Exception as e:  # noqa
             t, exc = None, e
-        if case["target"] == "absent":
+        frame_condition(ctx, "new", d, snap, [os.path.relpath(p, d)] if case["target"] in ABSENT_KINDS else [])
+        if case["target"] in ABSENT_KINDS:
+            if exc is None and not os.path.isfile(p):
+                ctx.fail("new/target-not-created", f"Tdf.new({os.path.basename(p)!r}) returned but no file exists at exactly that path")
+            if exc is None and os.path.realpath(str(t.file_path) if os.path.isabs(str(t.file_path)) else os.path.join(os.getcwd(), str(t.file_path))) != os.path.realpath(p):
+                ctx.fail("new/returned-object-path", f"Tdf.new returned an object for {t.file_path}, not for the requested {os.path.basename(p)!r}")
             if exc is not None:
                 ctx.fail("new/absent-refused", f"Tdf.new on a fresh path raised {type(exc).__name__}: {exc}")
             else:
@@ -124,7 +171,8 @@ def run_new(ctx, case):
 def copy_strategy(tier):
     op = st.fixed_dictionaries({"side": st.sampled_from(["copy", "original"]), "op": st.sampled_from(["add", "remove", "replace"]), "k": st.integers(0, 20),
                                 "block": container.block_ops_payload()})
-    return st.fixed_dictionaries({"target": st.sampled_from(["absent", "absent", "absent"] + TARGETS[1:]), "path": st.sampled_from(PATH_KINDS),
+    return st.fixed_dictionaries({"target": st.sampled_from(ABSENT_KINDS + ["absent"] + TARGETS[1:]), "path": st.sampled_from(PATH_KINDS),
+                                  "inside_context": st.sampled_from([False, False, True]),
                                   "seed": st.integers(0, 10 ** 6), "source": container.init_images(), "followup": st.lists(op, max_size=5),
                                   "source_via_library": st.booleans()})
 
@@ -146,14 +194,34 @@ def run_copy(ctx, case):
             src_bytes = open(src_path, "rb").read()
             p, before = make_target(d, case["target"], case["seed"])
             src = Tdf(src_path)
-            try:
-                cp = src.copy(as_path(p, case["path"]))
-                exc = None
-            except Exception as e:  # noqa
-                cp, exc = None, e
-            if open(src_path, "rb").read() != src_bytes:
-                ctx.fail("copy/source-changed", "Tdf.copy changed the source file")
-            if case["target"] != "absent":
+            snap = snapshot(d)
+            if case.get("inside_context") and case["target"] in ABSENT_KINDS:
+                # copy taken while a write context is open, right after a mutation: the copy must contain it
+                parsed0 = reftdf.parse_container(src_bytes)
+                live0 = [e["type"] for _, e in reftdf.live(parsed0)]
+                cands = [t_ for t_ in ("events", "emg", "optical", "data3D") if reftdf.TYPE_CODE[t_] not in live0]
+                try:
+                    with src.allow_write() as w:
+                        if cands and len(live0) < parsed0["nEntries"]:
+                            from .c07 import labelled_spec
+
+                            w.add_block(specs.build(labelled_spec(cands[0], 2)), "added just before the copy")
+                        cp = w.copy(as_path(p, case["path"]))
+                    exc = None
+                except Exception as e:  # noqa
+                    cp, exc = None, e
+                src_bytes = open(src_path, "rb").read()
+                ctx.label("copy:inside-write-context")
+            else:
+                try:
+                    cp = src.copy(as_path(p, case["path"]))
+                    exc = None
+                except Exception as e:  # noqa
+                    cp, exc = None, e
+                if open(src_path, "rb").read() != src_bytes:
+                    ctx.fail("copy/source-changed", "Tdf.copy changed the source file")
+            frame_condition(ctx, "copy", d, snap, [os.path.relpath(p, d)] if case["target"] in ABSENT_KINDS else [])
+            if case["target"] not in ABSENT_KINDS:
                 if exc is None:
                     ctx.fail(f"copy/{case['target']}/not-refused", f"Tdf.copy onto an existing {case['target']} did not raise")
                 elif not isinstance(exc, FileExistsError):
@@ -168,8 +236,12 @@ def run_copy(ctx, case):
             if exc is not None:
                 ctx.fail("copy/absent-refused", f"Tdf.copy to a fresh path raised {type(exc).__name__}: {exc}")
                 return
+            if not os.path.isfile(p):
+                ctx.fail("copy/target-not-created", f"Tdf.copy({os.path.basename(p)!r}) returned but no file exists at exactly that path")
+                return
             if open(p, "rb").read() != src_bytes:
-                ctx.fail("copy/not-identical", "the copy is not byte-identical to the original")
+                ctx.fail("copy/not-identical" + ("-inside-write-context" if case.get("inside_context") else ""),
+                         "the copy is not byte-identical to the original" + (" (copy taken inside an open write context right after add_block)" if case.get("inside_context") else ""))
             if os.path.samefile(p, src_path):
                 ctx.fail("copy/same-file", "copy and original are the same file (same inode)")
             if os.path.realpath(os.path.join(os.getcwd(), str(cp.file_path))) != os.path.realpath(p):
@@ -205,7 +277,7 @@ def run_copy(ctx, case):
                     ctx.fail("copy/followup-raises", f"valid {f_op['op']} on the {side} raised {type(e).__name__}: {e}")
                 if open(files[other], "rb").read() != other_before:
                     ctx.fail(f"copy/not-independent-{side}-mutated", f"mutating the {side} changed the bytes of the {other}")
-            ctx.case(case, mutated > 0, labels=["copy:absent", "path=" + case["path"], f"followups={min(mutated, 3)}"])
+            ctx.case(case, mutated > 0, labels=["copy:" + case["target"], "path=" + case["path"], f"followups={min(mutated, 3)}"])
         finally:
             it.close()
     finally:
